@@ -97,8 +97,9 @@ def seq_merge(arrs, op, k, j):
         raised, res = _call(lambda: a + b)
         if raised == "":
             arrs[k - 1] = res
+    # olda: the left operand afterwards (a + b must leave a as it was; for the in-place merges it is the result itself)
     return {"action": MERGE_ACTION[op], "k": k, "j": j, "pre": pre, "prej": prej, "post": X.proj_array(arrs[k - 1]),
-            "postj": X.proj_array(b), "raised": raised}
+            "postj": X.proj_array(b), "olda": X.proj_array(a), "raised": raised}
 
 
 def seq_query(arrs, k, sid):
@@ -115,17 +116,26 @@ class SeqWorld(object):
         self.ns, self.trees, self.arrs = ns, trees, arrs
         self.alive = set(range(1, len(arrs) + 1))
         self.nxt = 1
+        self.q = set()          # arrays whose summaries have been asked for: asked again after every later call on them
 
     def clone(self):
         # one pickle round trip of everything keeps the sharing of the namespace between trees and arrays
         ns, trees, arrs = pickle.loads(pickle.dumps((self.ns, self.trees, self.arrs), pickle.HIGHEST_PROTOCOL))
         w = SeqWorld(ns, trees, arrs)
-        w.alive, w.nxt = set(self.alive), self.nxt
+        w.alive, w.nxt, w.q = set(self.alive), self.nxt, set(self.q)
         return w
 
     def step(self, op, rng, sid, newsid, query=True, warm=False):
-        """one model transition on the real objects -> events (the call, then the queries after a merge)"""
+        """one model transition on the real objects -> events (the call, then the queries the history asks for).
+        Returns (events, state id afterwards)."""
         arrs = self.arrs
+        if op[0] == "Query":
+            k = op[1]
+            self.q.add(k)
+            if query:
+                return [seq_query(arrs, k, sid)], sid
+            X.queries(arrs[k - 1])                  # part of the history of this state, judged where it was a fan transition
+            return [], sid
         if op[0] == "AddTree":
             k, i = op[1], op[2]
             n = len(arrs[k - 1]._tree_split_bitmasks)
@@ -133,17 +143,25 @@ class SeqWorld(object):
             api = "insert" if (i < n or rng.random() < 0.34) else rng.choice(("add_tree", "append"))
             ev = seq_add(arrs, self.trees, k, i, self.nxt, api, rng.random() < 0.3)
             self.nxt += 1
-            evs = [ev]
+            involved = (k,)
         else:
-            _, kind, k, j = op
+            kind, k, j = op[1], op[2], op[3]
             if warm and len(arrs[k - 1]._tree_split_bitmasks) > 0:
                 X.queries(arrs[k - 1])      # history "query, merge, query": the summaries were looked at before the merge
-            evs = [seq_merge(arrs, kind, k, j)]
-            self.alive.discard(j)
-        evs[0]["from"], evs[0]["to"] = sid, newsid
-        if query and op[0] != "AddTree" and len(arrs[op[2] - 1]._tree_split_bitmasks) > 0:
-            evs.append(seq_query(arrs, op[2], newsid))       # "after any merge every per-tree query still works"
-        return evs
+            ev = seq_merge(arrs, kind, k, j)
+            if not (len(op) > 4 and op[4] == "keep"):
+                self.alive.discard(j)       # "keep": the same operand object is merged again later (another arrival order)
+                self.q.discard(j)
+            if kind == "add" and ev["raised"] == "":
+                self.q.discard(k)
+            involved = (k, j)
+        ev["from"], ev["to"] = sid, newsid
+        # every other array - the operands of earlier merges included - must be exactly what it was
+        ev["others"] = [[o, X.proj_array(arrs[o - 1])] for o in range(1, len(arrs) + 1) if o not in involved]
+        evs = [ev]
+        if query and len(arrs[k - 1]._tree_split_bitmasks) > 0 and (op[0] != "AddTree" or k in self.q):
+            evs.append(seq_query(arrs, k, newsid))       # after any merge; after an addition to an array that was queried before
+        return evs, newsid
 
 
 def run_seq(case):
@@ -156,19 +174,20 @@ def run_seq(case):
     evs = [setup]
     sid = 1
     top = 1
-    for op in case["ops"]:
-        top += 1
-        # with a fan, the prefix is another case's fan transition: it was queried there
-        evs.extend(w.step(op, rng, sid, top, query=not case.get("fan")))
-        sid = top
     fan = case.get("fan", [])
+    for op in case["ops"]:
+        # with a fan, the prefix is another case's fan transition: it was queried there
+        e, sid = w.step(op, rng, sid, top + 1, query=not fan)
+        top = max(top, sid)
+        evs.extend(e)
     for op in fan:
-        top += 1
-        evs.extend(w.clone().step(op, rng, sid, top, warm=rng.random() < 0.5))
+        e, s2 = w.clone().step(op, rng, sid, top + 1, warm=rng.random() < 0.5)
+        top = max(top, s2)
+        evs.extend(e)
     if not fan:
         last = case["ops"][-1] if case["ops"] else None
         for k in sorted(w.alive):
-            if len(w.arrs[k - 1]._tree_split_bitmasks) > 0 and not (last and last[0] != "AddTree" and last[2] == k):
+            if len(w.arrs[k - 1]._tree_split_bitmasks) > 0 and not (last and last[0] == "Merge" and last[2] == k):
                 evs.append(seq_query(w.arrs, k, sid))
     return evs
 
@@ -240,17 +259,26 @@ def random_seq_case(seed, thorough):
     alive = list(range(1, narr + 1))
     sizes = dict((k, 0) for k in alive)
     left = ntrees
+    kept = 0
     while left > 0 or len(alive) > 1:
-        if left > 0 and (len(alive) == 1 or rng.random() < 0.6):
+        x = rng.random()
+        if left > 0 and (len(alive) == 1 or x < 0.5):
             k = rng.choice(alive)
             ops.append(["AddTree", k, rng.randint(0, sizes[k])])
             sizes[k] += 1
             left -= 1
-        else:
+        elif x < 0.62 and any(sizes[k] for k in alive):
+            ops.append(["Query", rng.choice([k for k in alive if sizes[k]])])       # query, then more additions / merges
+        elif len(alive) > 1:
             k, j = rng.sample(alive, 2)
-            ops.append(["Merge", rng.choice(("update", "update", "extend", "iadd", "add")), k, j])
+            op = ["Merge", rng.choice(("update", "update", "extend", "iadd", "add")), k, j]
             sizes[k] += sizes[j]
-            alive.remove(j)
+            if kept < 2 and rng.random() < 0.35:
+                op.append("keep")           # the same operand object arrives again elsewhere
+                kept += 1
+            else:
+                alive.remove(j)
+            ops.append(op)
     return {"kind": "seq", "src": "random", "seed": seed, "r": r, "ntax": ntax, "set": st, "trees": trees,
             "expl": expl, "ops": ops}
 
